@@ -46,6 +46,44 @@ type World struct {
 
 	// ParkOverflow is set if more than maxParked goroutines were parked at once.
 	ParkOverflow bool
+
+	// TagEvents: record the emitter of every event (needed only where library
+	// goroutines the scheduler does not own emit within one step: S-dir).
+	TagEvents bool
+
+	// points[i] says whether preemption point i yields in this run; set by the
+	// scheduler before the system under test starts.
+	points []bool
+}
+
+// pointNames is filled in by the generated points_gen.go of the scratch copy.
+var pointNames []string
+
+// PointNames lists the preemption points the instrumenter created.
+func PointNames() []string { return pointNames }
+
+// EnablePoints selects the preemption points that yield in this run.
+//
+//go:norace
+func (w *World) EnablePoints(ids []int) {
+	w.points = make([]bool, len(pointNames))
+	for _, i := range ids {
+		if i >= 0 && i < len(w.points) {
+			w.points[i] = true
+		}
+	}
+}
+
+// Point is spliced at the start of every function of the system under test.
+// It yields only if the scheduler enabled this site for the run.
+//
+//go:norace
+func Point(id int) {
+	w := cur
+	if w == nil || id >= len(w.points) || !w.points[id] {
+		return
+	}
+	w.park(w.self("point"), "point", pointNames[id], nil, false, nil)
 }
 
 const maxParked = 8192
@@ -88,8 +126,9 @@ type gidSlot struct {
 // Event is one observation, stamped with the scheduler step at which it was
 // made. Events are written here (norace) and read by the scheduler.
 type Event struct {
-	Step int64
-	Kind string
+	Step  int64
+	Actor string // label of the emitting goroutine ("ext" if the instrumenter never saw it)
+	Kind  string
 	Conn int
 	Msg  int64
 	A, B int64
@@ -476,9 +515,24 @@ func Emit(kind string, conn int, msg int64, a, b int64, s string, p interface{})
 //go:norace
 func (w *World) Emit(kind string, conn int, msg int64, a, b int64, s string, p interface{}) {
 	e := &Event{Kind: kind, Conn: conn, Msg: msg, A: a, B: b, S: s, P: p}
+	var g uint64
+	if w.TagEvents {
+		g = goid()
+	}
 	raceDisable()
 	w.mu.Lock()
 	e.Step = w.Step
+	switch {
+	case !w.TagEvents:
+	case g == w.sched:
+		e.Actor = "scheduler"
+	default:
+		if a := w.lookup(g); a != nil {
+			e.Actor = a.Label
+		} else {
+			e.Actor = "ext"
+		}
+	}
 	if w.evTail == nil {
 		w.evHead = e
 	} else {
